@@ -413,8 +413,13 @@ func buildForGen(nm *hx.NodeMachine, spec *hx.TxSpec, s *hx.MState) (*pb.Transac
 // genAdvOp draws an adversarial candidate (C02 / C03 / C05): most must be refused, a few are valid
 // unusual encodings; the model decides which.
 func genAdvOp(rt *rapid.T, nm *hx.NodeMachine, cfg genCfg) hx.NOp {
+	return genAdvOpOn(rt, nm, cfg, nm.PoolState())
+}
+
+// genAdvOpOn: the candidate is assembled against the given model state (pool state for submissions, the chain state
+// of the parent for candidates delivered inside a block).
+func genAdvOpOn(rt *rapid.T, nm *hx.NodeMachine, cfg genCfg, s *hx.MState) hx.NOp {
 	m := nm.LM.M
-	s := nm.PoolState()
 	h := m.Blocks[m.Tip].Height
 	base, ok := genTxSpec(rt, nm, s, genCfg{Keys: cfg.Keys, ContractPct: 0}, h, false)
 	if !ok {
@@ -612,8 +617,24 @@ func genAdvPeer(rt *rapid.T, nm *hx.NodeMachine, cfg genCfg) hx.NOp {
 		// height, spent or off-chain outputs, odd encodings ...) delivered INSIDE a block: the block is valid exactly
 		// when the model admits the transaction on the parent's state
 		if nm.Valid[m.Tip] {
-			adv := genAdvOp(rt, nm, cfg)
-			if adv.Op == "tx" && adv.Tx != nil && adv.BuildAt == nil && !adv.Tx.Coinbase {
+			// built on the CHAIN state of the tip (a block transaction that spends an output of one of this node's
+			// pending transactions is judged on the pending state by PlayAndRepost: not a statement of any property);
+			// nothing whose admissibility depends on a frozen height (judged against the ledger height, DESIGN 6.4)
+			base := nm.States[m.Tip]
+			adv := genAdvOpOn(rt, nm, cfg, base.Clone())
+			frozen := adv.Tx == nil
+			if adv.Tx != nil {
+				for _, in := range adv.Tx.Ins {
+					if in.Frozen != 0 {
+						frozen = true
+					}
+					id, _ := hex.DecodeString(in.Txid)
+					if u := base.U[hx.UKey(hx.AddrOfRef(in), id, in.Off)]; u != nil && u.Frozen != 0 {
+						frozen = true
+					}
+				}
+			}
+			if adv.Op == "tx" && !frozen && adv.BuildAt == nil && !adv.Tx.Coinbase && !adv.Tx.Autogen {
 				op = hx.NOp{Op: "peer", Label: op.Label, Parent: m.Tip, Proposer: op.Proposer, Txs: []hx.TxSpec{*adv.Tx},
 					Expect: "in-block:" + adv.Expect}
 			}
